@@ -17,6 +17,7 @@ CONSTANTS MaxDecls,     \* bound on declarations per kind
           Tricky,       \* TRUE: identifier pools contain names that start with keywords (i32x, doubleValue, voidable ...)
           EmitAt,       \* programs are emitted after this many steps
           WithBreaks,   \* TRUE: the last step of a walk may be one invalidating edit
+          Focus,        \* "all", or "enums" / "scopes" / "typedefs" / "enumrefs" / "annotations" / "fields": restrict the builder to one family of declarations
           Hard          \* "none", or one family of valid constructs the generators are known to mishandle; the last step of a
                         \* walk then adds that construct (C11 keeps these apart from all other programs so that a recorded
                         \* finding cannot hide a new one): "keywords" = identifiers that are reserved words of a target
@@ -52,6 +53,9 @@ Types(p) == Leafs(p) \cup {L(t) : t \in {B("i32"), B("string")} \cup Refs(p)}
                      \cup {S(B("string")), S(B("i64")), M(B("string"), B("i32")), M(B("i32"), L(B("string")))}
                      \cup {M(B("string"), t) : t \in Refs(p)} \cup {L(M(B("string"), S(B("i32"))))}
                      \cup {S(R(n)) : n \in Names(p.structs)} \cup {M(R(n), B("string")) : n \in Names(p.enums)} \cup {L(L(B("i32")))}
+\* the type pool the builder draws from: under the focus "enumrefs" only user types (typedef chains, enums, structs), which makes
+\* walks dense in typedefs of typedefs of enums / structs used as fields, arguments, results and operations
+TypesF(p) == IF Focus = "enumrefs" THEN Refs(p) ELSE IF Focus = "annotations" THEN {} ELSE Types(p)
 \* default values by type (none, or one literal of the right shape)
 Defaults(t) == {[k |-> "none"]} \cup
   (CASE t = B("i32") -> {[k |-> "int", i |-> 5], [k |-> "int", i |-> -7]}
@@ -75,7 +79,7 @@ Reaches(q, from, target, fuel) ==
        /\ (q.typedefs[i].t.n = target \/ Reaches(q, q.typedefs[i].t.n, target, fuel - 1))
 NoTypedefCycle(q) == \A i \in Idx(q.typedefs) : ~Reaches(q, q.typedefs[i].name, q.typedefs[i].name, 4)
 ExceptionNames(q) == {q.structs[i].name : i \in {j \in Idx(q.structs) : q.structs[j].kind = "exception"}}
-DefaultFits(f) == f.dflt \in Defaults(f.t)
+DefaultFits(f) == f.dflt \in Defaults(f.t) \/ f.dflt.k = "id"
 Valid(p) ==
   /\ ~p.badinclude /\ NoTypedefCycle(p)
   /\ \A i \in Idx(p.typedefs) : p.typedefs[i].t \in Types(p)
@@ -105,7 +109,20 @@ EffReq(kind, req) == IF kind = "union" THEN "optional" ELSE req
 \* ---- state machine: build a program declaration by declaration ----
 VARIABLES p, steps, broken
 vars == <<p, steps, broken>>
-Init == p = Empty /\ steps = 0 /\ broken = "none"
+\* the focus "enumrefs" starts from a program that already has an enum, a typedef of it, a typedef of that typedef, a struct, a
+\* service and a scope, so that a few steps reach every use of a typedef chain (field, default Enum.VALUE, argument, result, operation)
+EnumRefsBase == [Empty EXCEPT !.enums = <<[name |-> "Color", vals |-> <<[name |-> "RED", explicit |-> NONE], [name |-> "green", explicit |-> 5]>>]>>,
+                              !.typedefs = <<[name |-> "Thing", t |-> R("Color")], [name |-> "T2", t |-> R("Thing")]>>,
+                              !.structs = <<[kind |-> "struct", name |-> "Rec", fields |-> <<>>, ann |-> FALSE]>>,
+                              !.services = <<[name |-> "Svc", extends |-> "", methods |-> <<>>]>>,
+                              !.scopes = <<[name |-> "Events", prefix |-> <<"foo">>, ops |-> <<>>]>>]
+\* the focus "annotations" starts from the same program with one method in its service and only adds methods and annotations
+AnnBase == [EnumRefsBase EXCEPT !.services = <<[name |-> "Svc", extends |-> "", methods |->
+               <<[name |-> "get", oneway |-> FALSE, ret |-> <<R("T2")>>, args |-> <<[id |-> 1, req |-> "default", t |-> R("Thing"), name |-> "a", dflt |-> [k |-> "none"]]>>,
+                  throws |-> <<>>, anns |-> 0]>>]>>]
+Init == /\ p = (IF Focus = "enumrefs" THEN EnumRefsBase ELSE IF Focus = "annotations" THEN AnnBase
+                ELSE IF Focus = "fields" THEN [EnumRefsBase EXCEPT !.include = TRUE] ELSE Empty)
+        /\ steps = 0 /\ broken = "none"
 Fields(p0, n, kind) ==
   {fs \in UNION {[1..k -> [id : {1, 2, 3, 7}, req : (IF kind \in {"args", "throws"} THEN {"default"} ELSE Reqs), t : {B("i32")}, name : FieldNames]] : k \in 0..n} : TRUE}
 \* (field lists are chosen step by step below; Fields is only documentation of the shape)
@@ -115,7 +132,7 @@ AddNs == /\ Len(p.ns) < 2
               /\ p' = [p EXCEPT !.ns = Append(@, [scope |-> s, value |-> v])]
 AddInclude == ~p.include /\ p' = [p EXCEPT !.include = TRUE]
 AddTypedef == /\ Len(p.typedefs) < MaxDecls
-              /\ \E n \in TypeNames \ Declared(p), t \in Types(p) :
+              /\ \E n \in TypeNames \ Declared(p), t \in TypesF(p) :
                    p' = [p EXCEPT !.typedefs = Append(@, [name |-> n, t |-> t])]
 AddEnum == /\ Len(p.enums) < MaxDecls
            /\ \E n \in EnumNames \ Declared(p) : p' = [p EXCEPT !.enums = Append(@, [name |-> n, vals |-> <<>>])]
@@ -139,11 +156,31 @@ AddEnumConst == /\ Len(p.consts) < MaxDecls + 1 /\ ~\E i \in Idx(p.consts) : p.c
 AddStruct == /\ Len(p.structs) < MaxDecls
              /\ \E n \in TypeNames \ Declared(p), k \in {"struct", "union", "exception"} :
                   p' = [p EXCEPT !.structs = Append(@, [kind |-> k, name |-> n, fields |-> <<>>, ann |-> FALSE])]
+\* (the focus "fields" pins id and name, so that one exhaustive step from its base yields one struct per type x requiredness x default)
+FIds == IF Focus = "fields" THEN {1} ELSE {1, 2, 3, 7, 16}
+FNames == IF Focus = "fields" THEN {"a"} ELSE FieldNames
 AddField == \E s \in Idx(p.structs) : /\ Len(p.structs[s].fields) < 3
-              /\ \E id \in {1, 2, 3, 7, 16}, r \in Reqs, t \in Types(p), n \in FieldNames \ Names(p.structs[s].fields) :
+              /\ \E id \in FIds, r \in Reqs, t \in TypesF(p), n \in FNames \ Names(p.structs[s].fields) :
                    /\ ~\E i \in Idx(p.structs[s].fields) : p.structs[s].fields[i].id = id
                    /\ \E d \in Defaults(t) :
                         p' = [p EXCEPT !.structs[s].fields = Append(@, [id |-> id, req |-> EffReq(p.structs[s].kind, r), t |-> t, name |-> n, dflt |-> d])]
+\* a field of an enum type - directly or through a typedef chain - with one of the enum's values as default (Enum.VALUE)
+RECURSIVE EnumBehind(_, _, _)
+EnumBehind(q, t, fuel) ==
+  IF t.k # "ref" \/ fuel = 0 THEN ""
+  ELSE IF \E e \in Idx(q.enums) : q.enums[e].name = t.n THEN t.n
+  ELSE IF \E i \in Idx(q.typedefs) : q.typedefs[i].name = t.n
+       THEN EnumBehind(q, q.typedefs[CHOOSE i \in Idx(q.typedefs) : q.typedefs[i].name = t.n].t, fuel - 1)
+       ELSE ""
+AddEnumDefaultField == \E s \in Idx(p.structs) : /\ Len(p.structs[s].fields) < 3 /\ p.structs[s].kind # "union"
+     /\ \E id \in (IF Focus = "fields" THEN {1} ELSE {4, 9}), r \in Reqs, t \in Refs(p), n \in FNames \ Names(p.structs[s].fields) :
+          /\ ~\E i \in Idx(p.structs[s].fields) : p.structs[s].fields[i].id = id
+          /\ EnumBehind(p, t, 4) # ""
+          /\ LET en == EnumBehind(p, t, 4) e == CHOOSE e \in Idx(p.enums) : p.enums[e].name = en IN
+             /\ p.enums[e].vals # <<>>
+             /\ \E v \in Idx(p.enums[e].vals) :
+                  p' = [p EXCEPT !.structs[s].fields = Append(@, [id |-> id, req |-> r, t |-> t, name |-> n,
+                          dflt |-> [k |-> "id", s |-> en \o "." \o p.enums[e].vals[v].name, e |-> en, v |-> p.enums[e].vals[v].name]])]
 Annotate == \E s \in Idx(p.structs) : ~p.structs[s].ann /\ p' = [p EXCEPT !.structs[s].ann = TRUE]
 AddService == /\ Len(p.services) < MaxDecls
               /\ \E n \in SvcNames \ Names(p.services), e \in {"", "inc.ExtSvc"} \cup Names(p.services) :
@@ -151,13 +188,17 @@ AddService == /\ Len(p.services) < MaxDecls
                    /\ p' = [p EXCEPT !.services = Append(@, [name |-> n, extends |-> e, methods |-> <<>>])]
 Exceptions(q) == {q.structs[i].name : i \in {j \in Idx(q.structs) : q.structs[j].kind = "exception"}}
 AddMethod == \E s \in Idx(p.services) : /\ Len(p.services[s].methods) < 3
-               /\ \E n \in MethodNames \ Names(p.services[s].methods), ow \in BOOLEAN, r \in {<<>>} \cup {<<t>> : t \in Types(p)} :
+               /\ \E n \in MethodNames \ Names(p.services[s].methods), ow \in BOOLEAN, r \in {<<>>} \cup {<<t>> : t \in TypesF(p)} :
                     /\ (ow => r = <<>>)
-                    /\ p' = [p EXCEPT !.services[s].methods = Append(@, [name |-> n, oneway |-> ow, ret |-> r, args |-> <<>>, throws |-> <<>>])]
+                    /\ p' = [p EXCEPT !.services[s].methods = Append(@, [name |-> n, oneway |-> ow, ret |-> r, args |-> <<>>, throws |-> <<>>, anns |-> 0])]
+\* a method carries 0..3 annotations; the k-th one is (verif.k<k> = "v<k>"), in this order
+AnnotateMethod == \E s \in Idx(p.services) : \E m \in Idx(p.services[s].methods) :
+                    /\ p.services[s].methods[m].anns < 3
+                    /\ p' = [p EXCEPT !.services[s].methods[m].anns = @ + 1]
 AddArg == \E s \in Idx(p.services) : \E m \in Idx(p.services[s].methods) :
             LET mm == p.services[s].methods[m] IN
             /\ Len(mm.args) < 2
-            /\ \E id \in {1, 2, 5}, r \in {"default", "optional"}, t \in Types(p), n \in FieldNames \ Names(mm.args) :
+            /\ \E id \in {1, 2, 5}, r \in {"default", "optional"}, t \in TypesF(p), n \in FieldNames \ Names(mm.args) :
                  /\ ~\E i \in Idx(mm.args) : mm.args[i].id = id
                  /\ p' = [p EXCEPT !.services[s].methods[m].args = Append(@, [id |-> id, req |-> r, t |-> t, name |-> n, dflt |-> [k |-> "none"]])]
 AddThrow == \E s \in Idx(p.services) : \E m \in Idx(p.services[s].methods) :
@@ -166,15 +207,25 @@ AddThrow == \E s \in Idx(p.services) : \E m \in Idx(p.services[s].methods) :
               /\ \E id \in {1, 2}, x \in Exceptions(p), n \in {"ex", "err2"} \ Names(mm.throws) :
                    /\ ~\E i \in Idx(mm.throws) : mm.throws[i].id = id
                    /\ p' = [p EXCEPT !.services[s].methods[m].throws = Append(@, [id |-> id, req |-> "default", t |-> R(x), name |-> n, dflt |-> [k |-> "none"]])]
-ScopePrefixes == {<<>>, <<"foo">>, <<"foo", "{usr}">>, <<"{usr}", "{org}", "x">>, <<"a", "{usr}", "b">>}
+ScopePrefixes == {<<>>, <<"foo">>, <<"foo", "{usr}">>, <<"{usr}", "{org}", "x">>, <<"a", "{usr}", "b">>,
+                  <<"v1", "{tenant_id}", "events">>, <<"{shard2x}">>}
 AddScope == /\ Len(p.scopes) < MaxDecls
             /\ \E n \in ScopeNames \ Names(p.scopes), pre \in ScopePrefixes :
                  p' = [p EXCEPT !.scopes = Append(@, [name |-> n, prefix |-> pre, ops |-> <<>>])]
 AddOp == \E s \in Idx(p.scopes) : /\ Len(p.scopes[s].ops) < 2
-           /\ \E n \in OpNames \ Names(p.scopes[s].ops), t \in Types(p) :
+           /\ \E n \in OpNames \ Names(p.scopes[s].ops), t \in TypesF(p) :
                 p' = [p EXCEPT !.scopes[s].ops = Append(@, [name |-> n, t |-> t])]
-AddAny == \/ AddNs \/ AddInclude \/ AddTypedef \/ AddEnum \/ AddEnumValue \/ AddConst \/ AddEnumConst \/ AddStruct \/ AddField \/ Annotate
-          \/ AddService \/ AddMethod \/ AddArg \/ AddThrow \/ AddScope \/ AddOp
+\* Focus = "all": every action; otherwise one family of declarations only, which makes an exhaustive exploration of that family
+\* several steps deep affordable (every state is then emitted, not only the last one of a walk)
+AddAny == CASE Focus = "enums" -> AddEnum \/ AddEnumValue
+            [] Focus = "scopes" -> AddScope \/ AddOp
+            [] Focus = "typedefs" -> AddEnum \/ AddTypedef
+            [] Focus = "annotations" -> AddMethod \/ AnnotateMethod
+            [] Focus = "fields" -> AddField \/ AddEnumDefaultField
+            [] Focus = "enumrefs" -> \/ AddEnum \/ AddEnumValue \/ AddTypedef \/ AddStruct \/ AddField \/ AddEnumDefaultField \/ AddEnumConst
+                                     \/ AddService \/ AddMethod \/ AddArg \/ AddScope \/ AddOp
+            [] OTHER -> \/ AddNs \/ AddInclude \/ AddTypedef \/ AddEnum \/ AddEnumValue \/ AddConst \/ AddEnumConst \/ AddStruct \/ AddField
+                        \/ AddEnumDefaultField \/ Annotate \/ AddService \/ AddMethod \/ AnnotateMethod \/ AddArg \/ AddThrow \/ AddScope \/ AddOp
 \* ---- invalidating edits: exactly one, as the last step of a walk (C11: every other input gets a diagnostic) ----
 F0(id, t, n) == [id |-> id, req |-> "default", t |-> t, name |-> n, dflt |-> [k |-> "none"]]
 Brk(q, how) == p' = q /\ broken' = how
@@ -187,9 +238,11 @@ Break ==
   \/ Brk([p EXCEPT !.typedefs = Append(@, [name |-> "Cyc", t |-> R("Cyc")])], "typedef-cycle-1")
   \/ Brk([p EXCEPT !.typedefs = Append(Append(@, [name |-> "CycA", t |-> R("CycB")]), [name |-> "CycB", t |-> R("CycA")])], "typedef-cycle-2")
   \/ Brk([p EXCEPT !.typedefs = Append(Append(Append(@, [name |-> "CycA", t |-> R("CycB")]), [name |-> "CycB", t |-> R("CycC")]), [name |-> "CycC", t |-> R("CycA")])], "typedef-cycle-3")
-  \/ \E s \in Idx(p.services) : Brk([p EXCEPT !.services[s].methods = Append(@, [name |-> "badow", oneway |-> TRUE, ret |-> <<B("i32")>>, args |-> <<>>, throws |-> <<>>])], "oneway-with-result")
+  \* an alias that leads into a cycle it is not part of, declared before the cycle's members
+  \/ Brk([p EXCEPT !.typedefs = Append(Append(Append(@, [name |-> "CycT", t |-> R("CycA")]), [name |-> "CycA", t |-> R("CycB")]), [name |-> "CycB", t |-> R("CycA")])], "typedef-cycle-tail")
+  \/ \E s \in Idx(p.services) : Brk([p EXCEPT !.services[s].methods = Append(@, [name |-> "badow", oneway |-> TRUE, ret |-> <<B("i32")>>, args |-> <<>>, throws |-> <<>>, anns |-> 0])], "oneway-with-result")
   \/ \E s \in Idx(p.services) : Exceptions(p) # {} /\
-        Brk([p EXCEPT !.services[s].methods = Append(@, [name |-> "badow", oneway |-> TRUE, ret |-> <<>>, args |-> <<>>,
+        Brk([p EXCEPT !.services[s].methods = Append(@, [name |-> "badow", oneway |-> TRUE, ret |-> <<>>, args |-> <<>>, anns |-> 0,
               throws |-> <<F0(1, R(CHOOSE x \in Exceptions(p) : TRUE), "ex")>>])], "oneway-with-throws")
   \/ Brk([p EXCEPT !.badinclude = TRUE], "bad-include")
   \/ \E s \in Idx(p.structs) : Brk([p EXCEPT !.structs = Append(@, [kind |-> "struct", name |-> p.structs[s].name, fields |-> <<>>, ann |-> FALSE])], "duplicate-struct-name")
@@ -209,7 +262,7 @@ Harden ==
   \/ /\ Hard = "keywords"
      /\ Brk([p EXCEPT !.structs = Append(@, [kind |-> "struct", name |-> "KwS", fields |-> KwFields, ann |-> FALSE]),
                       !.services = Append(@, [name |-> "KwSvc", extends |-> "", methods |->
-                                     <<[name |-> "kw", oneway |-> FALSE, ret |-> <<>>, args |-> KwFields, throws |-> <<>>]>>])], "hard:keywords")
+                                     <<[name |-> "kw", oneway |-> FALSE, ret |-> <<>>, args |-> KwFields, throws |-> <<>>, anns |-> 0]>>])], "hard:keywords")
   \/ /\ Hard = "container-keys"
      /\ Brk([p EXCEPT !.structs = Append(@, [kind |-> "struct", name |-> "CkS", ann |-> FALSE, fields |->
                   <<F0(1, S(L(B("i32"))), "sl"), F0(2, M(L(B("string")), B("i32")), "ml")>>])], "hard:container-keys")
@@ -225,6 +278,6 @@ Spec == Init /\ [][Next]_vars
 AlwaysValid == IF IsHard(broken) THEN TRUE ELSE (broken = "none") <=> Valid(p)
 \* what the parser must report: the program with its enums numbered
 Expected(q) == [q EXCEPT !.enums = [i \in Idx(q.enums) |-> [name |-> q.enums[i].name, vals |-> q.enums[i].vals, numbered |-> EnumNumbering(q.enums[i].vals)]]]
-Emit == (steps = EmitAt) => PrintT("PROG " \o ToJson([Expected(p) EXCEPT !.ns = p.ns] @@ [broken |-> broken]))
+Emit == (steps = EmitAt \/ (Focus # "all" /\ steps <= EmitAt)) => PrintT("PROG " \o ToJson([Expected(p) EXCEPT !.ns = p.ns] @@ [broken |-> broken]))
 Bounded == steps <= EmitAt
 =============================================================================
